@@ -33,12 +33,14 @@ macro "msimp" : tactic => `(tactic|
     getThe, MonadStateOf.get, StateT.get, *])
 
 theorem shouldCreate_F (c : Converter) (cx : Ctx) (s t : Ty) (st : GState)
-    (hs : inF s = true) (ht : inF t = true) (hsk : cx.cfg.common.skipCopySameType = false) :
+    (hs : inFS s = true) (ht : inFS t = true) (hsk : cx.cfg.common.skipCopySameType = false) :
     shouldCreateSubMethod c cx s t st = .ok (false, st) := by
   unfold shouldCreateSubMethod
   cases s with
-  | ptr e => cases e <;> cases t <;> simp [inF] at hs ht <;> msimp
-  | _ => cases t <;> simp [inF] at hs ht <;> msimp
+  | ptr e => cases e <;> cases t <;> simp [inFS] at hs ht <;> msimp
+  | struct sfs =>
+    cases t <;> simp [inFS] at hs ht <;> msimp
+  | _ => cases t <;> simp [inFS] at hs ht <;> msimp
 
 /-- the mode `conv` hands to `noLookup` (Assign with Must goes through Build) -/
 def modeNL : Mode → Mode
@@ -48,7 +50,7 @@ def modeNL : Mode → Mode
 theorem conv_step (c : Converter) (f : Nat) (cx : Ctx) (mode : Mode) (pp : Bool) (s t : Ty) (path : List PathElem) (st : GState)
     (he : c.extend = [])
     (hl : indexGet (lookupIndex st.methods) s t cx.available = .none)
-    (hs : inF s = true) (ht : inF t = true) (hsk : cx.cfg.common.skipCopySameType = false) :
+    (hs : inFS s = true) (ht : inFS t = true) (hsk : cx.cfg.common.skipCopySameType = false) :
     conv c (f+1) cx mode pp s t path st = noLookup c f cx (modeNL mode) pp s t path st := by
   unfold conv
   simp only [bind, StateT.bind, Except.bind, callExisting_none c cx s t path st he hl, shouldCreate_F c cx s t st hs ht hsk]
@@ -90,27 +92,27 @@ theorem noLookup_ptrPtr (a b : Ty) :
   nl_simp
   split <;> wrap_close
 
-theorem noLookup_tgtPtr (s b : Ty) (hs : inF s = true) (hp : isPtrTy s = false) :
+theorem noLookup_tgtPtr (s b : Ty) (hs : inFS s = true) (hp : isPtrTy s = false) :
     noLookup c (f+1) cx mode pp s (.ptr b) path st =
       wrapRes (conv c f cx .build false s b path st) (.tgtPtr b) := by
   unfold noLookup
-  cases s <;> simp [inF, isPtrTy] at hs hp <;> nl_simp
+  cases s <;> simp [inFS, isPtrTy] at hs hp <;> nl_simp
   all_goals (try split)
   all_goals wrap_close
 
-theorem noLookup_srcPtr (a t : Ty) (ht : inF t = true) (hp : isPtrTy t = false) (hz : cx.cfg.common.useZeroValue = true) :
+theorem noLookup_srcPtr (a t : Ty) (ht : inFS t = true) (hp : isPtrTy t = false) (hz : cx.cfg.common.useZeroValue = true) :
     noLookup c (f+1) cx mode pp (.ptr a) t path st =
       wrapRes (conv c f cx .build true a t path st) (.srcPtr t) := by
   unfold noLookup
-  cases t <;> simp [inF, isPtrTy] at ht hp <;> nl_simp
+  cases t <;> simp [inFS, isPtrTy] at ht hp <;> nl_simp
   all_goals (try split)
   all_goals wrap_close
 
 omit hc in
-theorem noLookup_srcPtr_off (a t : Ty) (ht : inF t = true) (hp : isPtrTy t = false) (hz : cx.cfg.common.useZeroValue = false) :
+theorem noLookup_srcPtr_off (a t : Ty) (ht : inFS t = true) (hp : isPtrTy t = false) (hz : cx.cfg.common.useZeroValue = false) :
     noLookup c (f+1) cx mode pp (.ptr a) t path st = .error .typeMismatchPtr := by
   unfold noLookup
-  cases t <;> simp [inF, isPtrTy] at ht hp <;> nl_simp
+  cases t <;> simp [inFS, isPtrTy] at ht hp <;> nl_simp
 
 omit hc in
 theorem noLookup_basic (k k' : Kind) :
@@ -155,35 +157,218 @@ def topRule : Ty → Ty → Bool
   | .slice _, .slice _ => true
   | .array _ _, .slice _ => true
   | .map _ _, .map _ _ => true
+  | .struct _, .struct _ => true
   | _, _ => false
 
 omit hc in
-theorem noLookup_reject (s t : Ty) (hs : inF s = true) (ht : inF t = true) (hps : isPtrTy s = false) (hpt : isPtrTy t = false)
+theorem noLookup_reject (s t : Ty) (hs : inFS s = true) (ht : inFS t = true) (hps : isPtrTy s = false) (hpt : isPtrTy t = false)
     (hr : topRule s t = false) :
     noLookup c (f+1) cx mode pp s t path st = .error .typeMismatch := by
   unfold noLookup
-  cases s <;> simp [inF, isPtrTy] at hs hps <;> cases t <;> simp [inF, isPtrTy, topRule] at ht hpt hr <;> nl_simp
+  cases s <;> simp [inFS, isPtrTy] at hs hps <;> cases t <;> simp [inFS, isPtrTy, topRule] at ht hpt hr <;> nl_simp
 
 end
 
+/-! ### the Struct rule on an unnamed struct without settings: field lookup, `structFields`, `structAssign`, `noLookup` -/
+
+theorem scan_fields (name : Str.S) : ∀ (fs : Fields) (acc : List FieldHit),
+    findAllFields.scan name false (fun h => match h with | FieldHit.field n _ => n | FieldHit.method n _ _ => n)
+      (fs.toList.map (fun (x : FieldInfo × Ty) => match x with | (f, ty) => FieldHit.field f.name ty)) acc =
+      ((fieldTy fs name).map (FieldHit.field name), acc)
+  | .nil, acc => by simp [Fields.toList, findAllFields.scan, fieldTy]
+  | .cons f t r, acc => by
+    simp only [Fields.toList, List.map_cons, findAllFields.scan, fieldTy]
+    by_cases h : (f.name == name) = true
+    · have : f.name = name := eq_of_beq h
+      simp [h, this]
+    · simp [h]
+      exact scan_fields name r acc
+
+theorem findAllFields_struct (c : Converter) (sfs : Fields) (name : Str.S) :
+    findAllFields c (.struct sfs) name false = ((fieldTy sfs name).map (FieldHit.field name), []) := by
+  unfold findAllFields
+  simp only [isStruct, under, List.append_nil]
+  exact scan_fields name sfs []
+
+theorem findField_struct (c : Converter) (sfs : Fields) (name : Str.S) :
+    findField c name false (.struct sfs) [] =
+      (match fieldTy sfs name with
+       | some ty => .one [] (.field name ty)
+       | none => .noMatch) := by
+  unfold findField
+  rw [findAllFields_struct]
+  cases fieldTy sfs name <;> simp
+
+theorem findExactField_struct (c : Converter) (sfs : Fields) (name : Str.S) :
+    findExactField c (.struct sfs) name = (fieldTy sfs name).map (FieldHit.field name) := by
+  unfold findExactField
+  rw [findAllFields_struct]
+
+/-- the settings under which a struct is converted by the bare Struct rule -/
+structure StructPlain (cx : Ctx) (st : GState) : Prop where
+  noIgnoreCase : cx.cfg.common.matchIgnoreCase = false
+  noIgnoreMissing : cx.cfg.common.ignoreMissing = false
+  fields : cx.cfg.fields = []
+  autoMap : cx.cfg.autoMap = []
+  noUpdate : cx.updateTarget = false
+  noRaw : ∀ m ∈ st.methods, m.cfg.rawFieldSettings = []
+
+theorem mapField_struct (c : Converter) (cx : Ctx) (st : GState) (sp : StructPlain cx st) (t : Ty) (sfs : Fields) (name : Str.S)
+    (hsf : inFSFields sfs = true) :
+    mapField c cx t name (.struct sfs) [] =
+      (match fieldTy sfs name with
+       | some sty => .ok (some { path := [name], derefs := [false], guarded := false, leafIsPtr := isPtrTy sty, nextSource := sty })
+       | none => .error .noMatch) := by
+  have hcfg : fieldCfgOf cx t name = {} := by
+    unfold fieldCfgOf; simp [sp.fields]
+  unfold mapField
+  simp only [hcfg]
+  cases hf : fieldTy sfs name with
+  | none =>
+    simp [sp.noIgnoreCase, sp.noIgnoreMissing, findField_struct, hf, bind, Except.bind, throw, throwThe, MonadExceptOf.throw]
+  | some sty =>
+    have hsty := inFS_fieldTy hsf hf
+    have hw : walkPath c [name] (.struct sfs) [] false = .ok (sty, [false], false, none) := by
+      simp [walkPath, isPtr, isStruct, under, findExactField_struct, hf]
+    simp [sp.noIgnoreCase, findField_struct, hf, hw, bind, Except.bind, pure, Except.pure]
+    cases sty <;> simp [inFS] at hsty <;> simp [under, isPtr, isPtrTy]
+
+theorem parseAutoMap_nil (c : Converter) (cx : Ctx) (s : Ty) (h : cx.cfg.autoMap = []) : parseAutoMap c cx s = .ok [] := by
+  simp [parseAutoMap, h, List.foldlM, pure, Except.pure]
+
+theorem structAssign_plain (c : Converter) (f : Nat) (cx : Ctx) (st : GState) (sp : StructPlain cx st) (isUpdate pp : Bool)
+    (s : Ty) (tfs : Fields) (path : List PathElem) :
+    structAssign c (f+1) cx isUpdate pp s (.struct tfs) path st =
+      (match structFields c f cx isUpdate pp s (.struct tfs) path [] tfs.toList st with
+       | .ok (plans, st') => .ok (.structc (FieldPlans.ofList plans) isUpdate, st')
+       | .error d => .error d) := by
+  unfold structAssign
+  simp [parseAutoMap_nil c cx s sp.autoMap, sp.fields, isStruct, under, bind, StateT.bind, Except.bind, pure, StateT.pure, Except.pure]
+  generalize structFields c f cx isUpdate pp s (Ty.struct tfs) path [] tfs.toList st = r
+  rcases r with _ | ⟨_, _⟩ <;> rfl
+
+theorem structFields_nil (c : Converter) (f : Nat) (cx : Ctx) (st : GState) (isUpdate pp : Bool) (s t : Ty) (path : List PathElem)
+    (extra : List (List Str.S × Ty)) :
+    structFields c (f+1) cx isUpdate pp s t path extra [] st = .ok ([], st) := by
+  unfold structFields; rfl
+
+theorem structFields_cons (c : Converter) (f : Nat) (cx : Ctx) (st : GState) (sp : StructPlain cx st) (pp : Bool)
+    (sfs : Fields) (t : Ty) (path : List PathElem) (fi : FieldInfo) (fty : Ty) (rest : List (FieldInfo × Ty))
+    (hsf : inFSFields sfs = true) (hex : fi.exported = true) :
+    structFields c (f+1) cx false pp (.struct sfs) t path [] ((fi, fty) :: rest) st =
+      (match fieldTy sfs fi.name with
+       | none => .error .noMatch
+       | some sty =>
+         match conv c f cx (.assign false false) false sty fty (path ++ [.field fi.name]) st with
+         | .error d => .error d
+         | .ok (cv, st1) =>
+           match structFields c f cx false pp (.struct sfs) t path [] rest st1 with
+           | .error d => .error d
+           | .ok (more, st2) =>
+             .ok (FieldPlan.mapped fi.name [fi.name] [false] false (isPtrTy sty) cv .none :: more, st2)) := by
+  have hcfg : fieldCfgOf cx t fi.name = {} := by
+    unfold fieldCfgOf; simp [sp.fields]
+  conv => lhs; unfold structFields
+  simp only [hcfg, mapField_struct c cx st sp t sfs fi.name hsf]
+  cases hf : fieldTy sfs fi.name with
+  | none =>
+    simp [hex, fieldAccessible, fail, bind, StateT.bind, Except.bind, pure, StateT.pure, Except.pure, throw, throwThe, MonadExceptOf.throw, StateT.lift]
+  | some sty =>
+    simp [hex, fieldAccessible, structMethodCall, shouldCheckZero, sp.noUpdate, fail, bind, StateT.bind, Except.bind, pure, StateT.pure, Except.pure]
+    generalize conv c f cx (Mode.assign false false) false sty fty (path ++ [PathElem.field fi.name]) st = r
+    rcases r with _ | ⟨cv, st1⟩
+    · rfl
+    · simp only []
+      generalize structFields c f cx false pp (Ty.struct sfs) t path [] rest st1 = r2
+      rcases r2 with _ | ⟨_, _⟩ <;> rfl
+
+theorem any_false_of {α : Type} (l : List α) (g : α → Bool) (h : ∀ x ∈ l, g x = false) : l.any g = false := by
+  rw [List.any_eq_false]; intro x hx; simp [h x hx]
+
+theorem noLookup_struct (c : Converter) (f : Nat) (cx : Ctx) (mode : Mode) (pp : Bool) (path : List PathElem) (st : GState)
+    (hu : cx.cfg.common.useUnderlying = false) (hsk : cx.cfg.common.skipCopySameType = false)
+    (hc : st.useCtor = false) (sp : StructPlain cx st) (sfs tfs : Fields) :
+    noLookup c (f+1) cx mode pp (.struct sfs) (.struct tfs) path st =
+      if mode == .build && sfs.length == 0 && tfs.length == 0 then .ok (.ident, st)
+      else structAssign c f cx mode.isUpdate pp (.struct sfs) (.struct tfs) path st := by
+  unfold noLookup
+  simp [isStruct, isPtr, isBasic, isList, isMap, under, isEnumPair, enumMembers, typeMismatch, fail, bind, StateT.bind, Except.bind,
+    pure, Except.pure, StateT.pure, get, getThe, MonadStateOf.get, StateT.get, throw, throwThe, MonadExceptOf.throw, StateT.lift, Ty.isNamed,
+    withVar, hu, hsk]
+  have hraw := sp.noRaw
+  rw [any_false_of (lookupIndex st.methods)]
+  rotate_left
+  · intro x _
+    cases hm : st.methods[x.fst]? with
+    | none => simp
+    | some m => simp [hraw m (List.mem_of_getElem? hm)]
+  rw [any_false_of (lookupIndex st.methods)]
+  rotate_left
+  · intro x _
+    cases hm : st.methods[x.fst]? with
+    | none => simp
+    | some m => simp [hraw m (List.mem_of_getElem? hm)]
+  rw [any_false_of (lookupIndex st.methods)]
+  rotate_left
+  · intro x _
+    cases hm : st.methods[x.fst]? with
+    | none => simp
+    | some m => simp [hraw m (List.mem_of_getElem? hm)]
+  simp only [Bool.false_eq_true, if_false, ite_self, StateT.bind, bind, Except.bind, StateT.pure, pure, Except.pure]
+  by_cases h1 : mode = Mode.build ∧ sfs.length = 0 ∧ tfs.length = 0
+  · have h1' : (mode = Mode.build ∧ sfs.length = 0) ∧ tfs.length = 0 := ⟨⟨h1.1, h1.2.1⟩, h1.2.2⟩
+    simp only [h1, h1', if_true]; rfl
+  · have h1' : ¬ ((mode = Mode.build ∧ sfs.length = 0) ∧ tfs.length = 0) := fun h => h1 ⟨h.1.1, h.1.2, h.2⟩
+    simp only [h1, h1', if_false]
+    by_cases h2 : mode = Mode.build <;>
+      simp only [h2, if_true, if_false, StateT.bind, targetVar_off c cx _ _ path st hc, StateT.pure, bind, Except.bind, pure, Except.pure] <;>
+      (generalize structAssign c f cx _ pp (Ty.struct sfs) (Ty.struct tfs) path st = r; rcases r with _ | ⟨_, _⟩ <;> rfl)
+
 /-! ### the reference generator on F -/
 
-/-- What the generator does on a pair of F-types, by recursion on the pair: the plan, or the diagnostic of the first position
-without a rule.  `asg` = the position is filled by assignment (a list element), where an array source gets no `make`. -/
-def genF (z : Bool) (asg : Bool) (s t : Ty) : Except Diag Conv :=
-  match s, t with
-  | .ptr a, .ptr b => (genF z false a b).map (Conv.ptrPtr b)
-  | s, .ptr b => (genF z false s b).map (Conv.tgtPtr b)
-  | .ptr a, t => if z then (genF z false a t).map (Conv.srcPtr t) else .error .typeMismatchPtr
-  | .basic k, .basic k' => if k.canon == k'.canon then .ok .ident else .error .typeMismatch
-  | .slice a, .slice b => (genF z true a b).map (Conv.list b true true)
-  | .array _ a, .slice b => (genF z true a b).map (Conv.list b (!asg) false)
-  | .map k v, .map k' v' =>
-    (match genF z false k k' with
-     | .ok kk => (genF z false v v').map (Conv.mapc k' v' kk)
-     | .error d => .error d)
-  | _, _ => .error .typeMismatch
-termination_by (s, t)
+mutual
+  /-- What the generator does on a pair of FS-types, by recursion on the pair: the plan, or the diagnostic of the first position
+  without a rule.  `asg` = the position is filled by assignment (a list element or a struct field), where an array source gets no
+  `make` and two empty structs are not short-cut to a plain assignment. -/
+  def genF (z : Bool) (asg : Bool) (s t : Ty) : Except Diag Conv :=
+    match s, t with
+    | .ptr a, .ptr b => (genF z false a b).map (Conv.ptrPtr b)
+    | s, .ptr b => (genF z false s b).map (Conv.tgtPtr b)
+    | .ptr a, t => if z then (genF z false a t).map (Conv.srcPtr t) else .error .typeMismatchPtr
+    | .basic k, .basic k' => if k.canon == k'.canon then .ok .ident else .error .typeMismatch
+    | .slice a, .slice b => (genF z true a b).map (Conv.list b true true)
+    | .array _ a, .slice b => (genF z true a b).map (Conv.list b (!asg) false)
+    | .map k v, .map k' v' =>
+      (match genF z false k k' with
+       | .ok kk => (genF z false v v').map (Conv.mapc k' v' kk)
+       | .error d => .error d)
+    | .struct sfs, .struct tfs =>
+      if !asg && sfs.length == 0 && tfs.length == 0 then .ok .ident
+      else (genFields z sfs tfs).map (fun ps => Conv.structc (FieldPlans.ofList ps) false)
+    | _, _ => .error .typeMismatch
+  termination_by tySize s + tySize t
+  decreasing_by
+    all_goals simp only [tySize]
+    all_goals omega
+  /-- the field plans of the Struct rule, in target-field order: each target field from the source field of its name -/
+  def genFields (z : Bool) (sfs tfs : Fields) : Except Diag (List FieldPlan) :=
+    match tfs with
+    | .nil => .ok []
+    | .cons f ty rest =>
+      match h : fieldTy sfs f.name with
+      | none => .error .noMatch
+      | some sty =>
+        match genF z true sty ty with
+        | .error d => .error d
+        | .ok cv =>
+          match genFields z sfs rest with
+          | .error d => .error d
+          | .ok more => .ok (FieldPlan.mapped f.name [f.name] [false] false (isPtrTy sty) cv .none :: more)
+  termination_by fieldsSize sfs + 1 + fieldsSize tfs
+  decreasing_by
+    · have := fieldTy_size h; simp only [fieldsSize]; omega
+    · simp only [fieldsSize]; omega
+end
 
 theorem genF_ptrPtr (z asg : Bool) (a b : Ty) :
     genF z asg (.ptr a) (.ptr b) = (genF z false a b).map (Conv.ptrPtr b) := by
@@ -220,10 +405,33 @@ theorem genF_reject (z asg : Bool) (s t : Ty) (hps : isPtrTy s = false) (hpt : i
     genF z asg s t = .error .typeMismatch := by
   cases s <;> simp [isPtrTy] at hps <;> cases t <;> simp [isPtrTy, topRule] at hpt hr <;> rw [genF] <;> (intros; simp_all)
 
-/-! ### the simulation: `conv` on F is `genF`, at every depth, and leaves the state alone -/
+theorem genF_struct (z asg : Bool) (sfs tfs : Fields) :
+    genF z asg (.struct sfs) (.struct tfs) =
+      if !asg && sfs.length == 0 && tfs.length == 0 then .ok .ident
+      else (genFields z sfs tfs).map (fun ps => Conv.structc (FieldPlans.ofList ps) false) := by
+  rw [genF]
+
+theorem genFields_nil (z : Bool) (sfs : Fields) : genFields z sfs .nil = .ok [] := by
+  rw [genFields]
+
+theorem genFields_cons (z : Bool) (sfs : Fields) (f : FieldInfo) (ty : Ty) (rest : Fields) :
+    genFields z sfs (.cons f ty rest) =
+      (match fieldTy sfs f.name with
+       | none => .error .noMatch
+       | some sty =>
+         match genF z true sty ty with
+         | .error d => .error d
+         | .ok cv =>
+           match genFields z sfs rest with
+           | .error d => .error d
+           | .ok more => .ok (FieldPlan.mapped f.name [f.name] [false] false (isPtrTy sty) cv .none :: more)) := by
+  rw [genFields]
+  split <;> rename_i h <;> simp [h]
+
+/-! ### the simulation: `conv` on F / FS is `genF`, at every depth, and leaves the state alone -/
 
 /-- a pure result, paired with the unchanged state -/
-def ret (r : Except Diag Conv) (st : GState) : Except Diag (Conv × GState) :=
+def ret {α : Type} (r : Except Diag α) (st : GState) : Except Diag (α × GState) :=
   match r with
   | .ok p => .ok (p, st)
   | .error d => .error d
@@ -237,240 +445,525 @@ def asgNL (mode : Mode) : Bool := !(mode == Mode.build)
 /-- … and as `conv` sees it: Build, and Assign with Must (a map value), are not -/
 def asgOf (mode : Mode) : Bool := asgNL (modeNL mode)
 
-/-- the "plain" situation: no extend function, no declared or generated method with a signature in F of size ≤ N, the two
-opt-in settings off, no pending constructor -/
-structure Plain (c : Converter) (cx : Ctx) (st : GState) (z : Bool) (N : Nat) : Prop where
+theorem isUpdate_modeNL {mode : Mode} (h : mode.isUpdate = false) : (modeNL mode).isUpdate = false := by
+  rcases mode with _ | ⟨_ | _, _⟩ <;> simp_all [modeNL, Mode.isUpdate]
+
+/-- the fragment: F (`ws = false`) or FS (`ws = true`: with unnamed structs) -/
+def frag : Bool → Ty → Bool
+  | true, t => inFS t
+  | false, t => inF t
+
+theorem frag_inFS {ws : Bool} {t : Ty} (h : frag ws t = true) : inFS t = true := by
+  cases ws
+  · exact inFS_of_inF t h
+  · exact h
+
+theorem frag_ptr {ws : Bool} {a : Ty} (h : frag ws (.ptr a) = true) : frag ws a = true := by
+  cases ws <;> simpa [frag, inF, inFS] using h
+theorem frag_slice {ws : Bool} {a : Ty} (h : frag ws (.slice a) = true) : frag ws a = true := by
+  cases ws <;> simpa [frag, inF, inFS] using h
+theorem frag_array {ws : Bool} {n : Nat} {a : Ty} (h : frag ws (.array n a) = true) : frag ws a = true := by
+  cases ws <;> simpa [frag, inF, inFS] using h
+theorem frag_map {ws : Bool} {k v : Ty} (h : frag ws (.map k v) = true) : frag ws k = true ∧ frag ws v = true := by
+  cases ws <;> simpa [frag, inF, inFS] using h
+theorem frag_struct {ws : Bool} {fs : Fields} (h : frag ws (.struct fs) = true) : ws = true ∧ inFSFields fs = true := by
+  cases ws <;> simp [frag, inF, inFS] at h ⊢; exact h
+
+/-- the "plain" situation: no extend function, no declared or generated method with a signature in the fragment of size ≤ N,
+the two opt-in settings off, no pending constructor; with structs, no field settings either -/
+structure Plain (c : Converter) (cx : Ctx) (st : GState) (z : Bool) (ws : Bool) (N : Nat) : Prop where
   extend : c.extend = []
-  lookup : ∀ s t, inF s = true → inF t = true → tySize s + tySize t ≤ N →
+  lookup : ∀ s t, frag ws s = true → frag ws t = true → tySize s + tySize t ≤ N →
     indexGet (lookupIndex st.methods) s t cx.available = .none
   underlying : cx.cfg.common.useUnderlying = false
   skipCopy : cx.cfg.common.skipCopySameType = false
   zero : cx.cfg.common.useZeroValue = z
   ctor : st.useCtor = false
+  structs : ws = true → StructPlain cx st
+
+/-- the fields of a target struct, one after the other: if the recursive calls agree with `genF`, `structFields` is `genFields` -/
+theorem structFields_F (c : Converter) (cx : Ctx) (st : GState) (z : Bool) (sp : StructPlain cx st) (pp : Bool)
+    (sfs : Fields) (t : Ty) (path : List PathElem) (hsf : inFSFields sfs = true) (M : Nat)
+    (hrec : ∀ a b, tySize a < fieldsSize sfs → tySize b ≤ M → inFS a = true → inFS b = true →
+      ∀ fuel', 2 * (tySize a + tySize b) ≤ fuel' → ∀ path',
+        conv c fuel' cx (.assign false false) false a b path' st = ret (genF z true a b) st) :
+    ∀ (rest : Fields), inFSFields rest = true → fieldsSize rest ≤ M → ∀ g, 2 * fieldsSize sfs + 2 * fieldsSize rest + 1 ≤ g →
+      structFields c g cx false pp (.struct sfs) t path [] rest.toList st = ret (genFields z sfs rest) st
+  | .nil, _, _, g, hg => by
+    obtain ⟨g', rfl⟩ : ∃ g', g = g' + 1 := ⟨g - 1, by omega⟩
+    rw [Fields.toList, structFields_nil, genFields_nil]; rfl
+  | .cons fi ty r, hr, hM, g, hg => by
+    obtain ⟨g', rfl⟩ : ∃ g', g = g' + 1 := ⟨g - 1, by omega⟩
+    simp [inFSFields] at hr
+    simp only [fieldsSize] at hM hg
+    rw [Fields.toList, structFields_cons c g' cx st sp pp sfs t path fi ty r.toList hsf hr.1.1, genFields_cons]
+    cases hf : fieldTy sfs fi.name with
+    | none => rfl
+    | some sty =>
+      simp only []
+      have hsz := fieldTy_size hf
+      rw [hrec sty ty hsz (by omega) (inFS_fieldTy hsf hf) hr.1.2 g' (by omega)]
+      cases genF z true sty ty with
+      | error d => rfl
+      | ok cv =>
+        simp only [ret]
+        rw [structFields_F c cx st z sp pp sfs t path hsf M hrec r hr.2 (by omega) g' (by omega)]
+        cases genFields z sfs r <;> rfl
 
 /-- one level of the cascade: if the recursive calls on all smaller pairs agree with `genF`, so does `noLookup` on this pair -/
-theorem noLookup_F (c : Converter) (cx : Ctx) (st : GState) (z : Bool)
+theorem noLookup_F (c : Converter) (cx : Ctx) (st : GState) (z : Bool) (ws : Bool)
     (hu : cx.cfg.common.useUnderlying = false) (hsk : cx.cfg.common.skipCopySameType = false)
-    (hz0 : cx.cfg.common.useZeroValue = z) (hc : st.useCtor = false)
-    (f : Nat) (s t : Ty) (hs : inF s = true) (ht : inF t = true)
-    (hrec : ∀ a b, tySize a + tySize b < tySize s + tySize t → inF a = true → inF b = true → ∀ mode pp path,
-      conv c f cx mode pp a b path st = ret (genF z (asgOf mode) a b) st) :
-    ∀ mode pp path, noLookup c (f+1) cx mode pp s t path st = ret (genF z (asgNL mode) s t) st := by
-  intro mode pp path
+    (hz0 : cx.cfg.common.useZeroValue = z) (hc : st.useCtor = false) (hsp : ws = true → StructPlain cx st)
+    (f : Nat) (s t : Ty) (hs : frag ws s = true) (ht : frag ws t = true) (hf : 2 * (tySize s + tySize t) ≤ f + 2)
+    (hrec : ∀ a b, tySize a + tySize b < tySize s + tySize t → frag ws a = true → frag ws b = true →
+      ∀ fuel', 2 * (tySize a + tySize b) ≤ fuel' → ∀ mode pp path, (ws = true → mode.isUpdate = false) →
+        conv c fuel' cx mode pp a b path st = ret (genF z (asgOf mode) a b) st) :
+    ∀ mode pp path, (ws = true → mode.isUpdate = false) →
+      noLookup c (f+1) cx mode pp s t path st = ret (genF z (asgNL mode) s t) st := by
+  intro mode pp path hmode
+  have hs' := frag_inFS hs
+  have ht' := frag_inFS ht
+  have hrec' : ∀ a b, tySize a + tySize b < tySize s + tySize t → frag ws a = true → frag ws b = true →
+      ∀ mode pp path, (ws = true → mode.isUpdate = false) →
+        conv c f cx mode pp a b path st = ret (genF z (asgOf mode) a b) st :=
+    fun a b hlt ha hb => hrec a b hlt ha hb f (by omega)
+  have hm1 : ws = true → Mode.build.isUpdate = false := fun _ => rfl
+  have hm2 : ws = true → (Mode.assign false false).isUpdate = false := fun _ => rfl
+  have hm3 : ws = true → (Mode.assign true false).isUpdate = false := fun _ => rfl
   by_cases hpt : isPtrTy t = true
   · obtain ⟨b, rfl⟩ : ∃ b, t = .ptr b := by cases t <;> simp [isPtrTy] at hpt; exact ⟨_, rfl⟩
-    have htb : inF b = true := by simpa [inF] using ht
+    have htb := frag_ptr ht
     by_cases hps : isPtrTy s = true
     · obtain ⟨a, rfl⟩ : ∃ a, s = .ptr a := by cases s <;> simp [isPtrTy] at hps; exact ⟨_, rfl⟩
-      have hsa : inF a = true := by simpa [inF] using hs
+      have hsa := frag_ptr hs
       rw [noLookup_ptrPtr c f cx _ pp path st hu hsk hc, genF_ptrPtr,
-        hrec a b (by simp [tySize]; omega) hsa htb, wrapRes_ret]
+        hrec' a b (by simp [tySize]; omega) hsa htb _ _ _ hm1, wrapRes_ret]
       rfl
     · have hps' : isPtrTy s = false := by simpa using hps
-      rw [noLookup_tgtPtr c f cx _ pp path st hu hsk hc s b hs hps', genF_tgtPtr z _ s b hps',
-        hrec s b (by simp [tySize]) hs htb, wrapRes_ret]
+      rw [noLookup_tgtPtr c f cx _ pp path st hu hsk hc s b hs' hps', genF_tgtPtr z _ s b hps',
+        hrec' s b (by simp [tySize]) hs htb _ _ _ hm1, wrapRes_ret]
       rfl
   · have hpt' : isPtrTy t = false := by simpa using hpt
     by_cases hps : isPtrTy s = true
     · obtain ⟨a, rfl⟩ : ∃ a, s = .ptr a := by cases s <;> simp [isPtrTy] at hps; exact ⟨_, rfl⟩
-      have hsa : inF a = true := by simpa [inF] using hs
+      have hsa := frag_ptr hs
       rw [genF_srcPtr z _ a t hpt']
       cases hz : z with
       | true =>
-        rw [noLookup_srcPtr c f cx _ pp path st hu hsk hc a t ht hpt' (by rw [hz0, hz]),
-          hrec a t (by simp [tySize]) hsa ht, wrapRes_ret]
+        rw [noLookup_srcPtr c f cx _ pp path st hu hsk hc a t ht' hpt' (by rw [hz0, hz]),
+          hrec' a t (by simp [tySize]) hsa ht _ _ _ hm1, wrapRes_ret]
         simp [hz]; rfl
       | false =>
-        rw [noLookup_srcPtr_off c f cx _ pp path st hu hsk a t ht hpt' (by rw [hz0, hz])]
+        rw [noLookup_srcPtr_off c f cx _ pp path st hu hsk a t ht' hpt' (by rw [hz0, hz])]
         rfl
     · have hps' : isPtrTy s = false := by simpa using hps
       by_cases hr : topRule s t = true
-      · cases s <;> simp [inF, isPtrTy] at hs hps' <;> cases t <;> simp [inF, isPtrTy, topRule] at ht hpt' hr
+      · cases s <;> simp [inFS, isPtrTy] at hs' hps' <;> cases t <;> simp [inFS, isPtrTy, topRule] at ht' hpt' hr
         · -- Basic
           rw [noLookup_basic c f cx _ pp path st hu hsk, genF_basic]
           split <;> rfl
         · -- List: slice → slice
           rename_i a b
           rw [noLookup_slice c f cx _ pp path st hu hsk, genF_slice,
-            hrec a b (by simp [tySize]; omega) hs ht, wrapRes_ret]
+            hrec' a b (by simp [tySize]; omega) (frag_slice hs) (frag_slice ht) _ _ _ hm2, wrapRes_ret]
           rfl
         · -- List: array → slice
           rename_i m a b
           rw [noLookup_array c f cx _ pp path st hu hsk, genF_array,
-            hrec a b (by simp [tySize]; omega) hs ht, wrapRes_ret]
+            hrec' a b (by simp [tySize]; omega) (frag_array hs) (frag_slice ht) _ _ _ hm2, wrapRes_ret]
           simp [asgNL]
           rfl
         · -- Map
           rename_i k v k' v'
           rw [noLookup_map c f cx _ pp path st hu hsk hc, genF_map,
-            hrec k k' (by simp [tySize]; omega) hs.1 ht.1]
+            hrec' k k' (by simp [tySize]; omega) (frag_map hs).1 (frag_map ht).1 _ _ _ hm1]
           have hk : asgOf Mode.build = false := rfl
           rw [hk]
           cases genF z false k k' with
           | error d => rfl
           | ok kk =>
             simp only [ret]
-            rw [hrec v v' (by simp [tySize]; omega) hs.2 ht.2, wrapRes_ret]
+            rw [hrec' v v' (by simp [tySize]; omega) (frag_map hs).2 (frag_map ht).2 _ _ _ hm3, wrapRes_ret]
             rfl
+        · -- Struct
+          rename_i sfs tfs
+          obtain ⟨hws, hsf⟩ := frag_struct hs
+          have sp := hsp hws
+          rw [noLookup_struct c f cx mode pp path st hu hsk hc sp, genF_struct]
+          have hcond : (mode == Mode.build && sfs.length == 0 && tfs.length == 0) =
+              (!asgNL mode && sfs.length == 0 && tfs.length == 0) := by simp [asgNL]
+          rw [hcond]
+          cases hcnd : (!asgNL mode && sfs.length == 0 && tfs.length == 0) with
+          | true => rfl
+          | false =>
+            simp only [Bool.false_eq_true, if_false]
+            simp only [tySize] at hf
+            obtain ⟨f', rfl⟩ : ∃ f', f = f' + 1 := ⟨f - 1, by omega⟩
+            rw [hmode hws, structAssign_plain c f' cx st sp false pp,
+              structFields_F c cx st z sp pp sfs (.struct tfs) path hsf (fieldsSize tfs)
+                (fun a b ha hb hia hib fuel' hfu path' =>
+                  hrec a b (by simp only [tySize]; omega) (by rw [hws]; exact hia) (by rw [hws]; exact hib) fuel' hfu
+                    (.assign false false) false path' (fun _ => rfl))
+                tfs ht' (Nat.le_refl _) f' (by omega)]
+            cases genFields z sfs tfs <;> rfl
       · have hr' : topRule s t = false := by simpa using hr
-        rw [noLookup_reject c f cx _ pp path st hu hsk s t hs ht hps' hpt' hr', genF_reject z _ s t hps' hpt' hr']
+        rw [noLookup_reject c f cx _ pp path st hu hsk s t hs' ht' hps' hpt' hr', genF_reject z _ s t hps' hpt' hr']
         rfl
 
-/-- **`conv` on F is `genF`, at every depth**: with fuel twice the size of the pair -/
-theorem conv_F (c : Converter) (cx : Ctx) (st : GState) (z : Bool) (N : Nat) (hp : Plain c cx st z N) :
-    ∀ n, n ≤ N → ∀ s t, tySize s + tySize t ≤ n → inF s = true → inF t = true → ∀ fuel, 2 * n ≤ fuel → ∀ mode pp path,
+/-- **`conv` on the fragment is `genF`, at every depth**: with fuel twice the size of the pair -/
+theorem conv_F (c : Converter) (cx : Ctx) (st : GState) (z : Bool) (ws : Bool) (N : Nat) (hp : Plain c cx st z ws N) :
+    ∀ n, n ≤ N → ∀ s t, tySize s + tySize t ≤ n → frag ws s = true → frag ws t = true →
+      ∀ fuel, 2 * (tySize s + tySize t) ≤ fuel → ∀ mode pp path, (ws = true → mode.isUpdate = false) →
       conv c fuel cx mode pp s t path st = ret (genF z (asgOf mode) s t) st := by
   intro n
   induction n with
   | zero => intro _ s t h; have := tySize_pos s; omega
   | succ n ih =>
-    intro hn s t hsz hs ht fuel hf mode pp path
-    obtain ⟨f, rfl⟩ : ∃ f, fuel = f + 2 := ⟨fuel - 2, by omega⟩
-    have hf' : 2 * n ≤ f := by omega
-    rw [conv_step c (f+1) cx mode pp s t path st hp.extend (hp.lookup s t hs ht (by omega)) hs ht hp.skipCopy]
-    exact noLookup_F c cx st z hp.underlying hp.skipCopy hp.zero hp.ctor f s t hs ht
-      (fun a b hlt ha hb => ih (by omega) a b (by omega) ha hb f hf') (modeNL mode) pp path
+    intro hn s t hsz hs ht fuel hf mode pp path hmode
+    obtain ⟨f, rfl⟩ : ∃ f, fuel = f + 2 := ⟨fuel - 2, by have := tySize_pos s; omega⟩
+    rw [conv_step c (f+1) cx mode pp s t path st hp.extend (hp.lookup s t hs ht (by omega)) (frag_inFS hs) (frag_inFS ht)
+      hp.skipCopy]
+    exact noLookup_F c cx st z ws hp.underlying hp.skipCopy hp.zero hp.ctor hp.structs f s t hs ht (by omega)
+      (fun a b hlt ha hb fuel' hfu mode' pp' path' hm' =>
+        ih (by omega) a b (by omega) ha hb fuel' (by omega) mode' pp' path' hm')
+      (modeNL mode) pp path (fun h => isUpdate_modeNL (hmode h))
 
 /-! ### `genF` succeeds exactly on the documented rule set -/
 
-theorem map_ok {k : Conv → Conv} {r : Except Diag Conv} {p : Conv} (h : r.map k = .ok p) : ∃ q, r = .ok q ∧ p = k q := by
+theorem map_ok {α β : Type} {k : α → β} {r : Except Diag α} {p : β} (h : r.map k = .ok p) : ∃ q, r = .ok q ∧ p = k q := by
   cases r with
   | error d => cases h
   | ok q => exact ⟨q, rfl, by cases h; rfl⟩
 
+theorem map_err {α β : Type} {k : α → β} {r : Except Diag α} {d : Diag} (h : r.map k = .error d) : r = .error d := by
+  cases r with
+  | error e => cases h; rfl
+  | ok q => cases h
+
 theorem isPtrTy_false_of {s : Ty} (h : ∀ a, s = .ptr a → False) : isPtrTy s = false := by
   cases s <;> simp [isPtrTy] at h ⊢
 
-theorem genF_ok_convertible (z asg : Bool) (s t : Ty) : ∀ p, genF z asg s t = .ok p → Convertible z s t := by
-  fun_induction genF z asg s t with
-  | case1 asg a b ih => intro p h; obtain ⟨q, hq, _⟩ := map_ok h; exact .ptrPtr (ih q hq)
-  | case2 asg s b hn ih => intro p h; obtain ⟨q, hq, _⟩ := map_ok h; exact .tgtPtr (isPtrTy_false_of hn) (ih q hq)
-  | case3 asg a t hn hz ih => intro p h; obtain ⟨q, hq, _⟩ := map_ok h; exact .srcPtr hz (isPtrTy_false_of hn) (ih q hq)
-  | case4 => intro p h; cases h
-  | case5 asg k k' hk => intro p _; exact .basic (by simpa using hk)
-  | case6 => intro p h; cases h
-  | case7 asg a b ih => intro p h; obtain ⟨q, hq, _⟩ := map_ok h; exact .slice (ih q hq)
-  | case8 asg n a b ih => intro p h; obtain ⟨q, hq, _⟩ := map_ok h; exact .array (ih q hq)
-  | case9 asg k v k' v' kk hk ih2 ih1 => intro p h; obtain ⟨q, hq, _⟩ := map_ok h; exact .map (ih2 kk hk) (ih1 q hq)
-  | case10 => intro p h; cases h
-  | case11 => intro p h; cases h
+theorem topRule_false_of {s t : Ty}
+    (h1 : ∀ (k k' : Kind), s = Ty.basic k → t = Ty.basic k' → False)
+    (h2 : ∀ (a b : Ty), s = a.slice → t = b.slice → False)
+    (h3 : ∀ (n : Nat) (a b : Ty), s = Ty.array n a → t = b.slice → False)
+    (h4 : ∀ (k v k' v' : Ty), s = k.map v → t = k'.map v' → False)
+    (h5 : ∀ (sfs tfs : Fields), s = Ty.struct sfs → t = Ty.struct tfs → False) : topRule s t = false := by
+  cases s <;> cases t <;> simp [topRule]
+  · exact h1 _ _ rfl rfl
+  · exact h2 _ _ rfl rfl
+  · exact h3 _ _ _ rfl rfl
+  · exact h4 _ _ _ _ rfl rfl
+  · exact h5 _ _ rfl rfl
 
-theorem convertible_genF_ok (z : Bool) {s t : Ty} (h : Convertible z s t) : ∀ asg, ∃ p, genF z asg s t = .ok p := by
-  induction h with
-  | basic hk => intro asg; exact ⟨.ident, by rw [genF_basic]; simp [hk]⟩
-  | ptrPtr _ ih => intro asg; obtain ⟨q, hq⟩ := ih false; exact ⟨_, by rw [genF_ptrPtr, hq]; rfl⟩
-  | tgtPtr hp _ ih => intro asg; obtain ⟨q, hq⟩ := ih false; exact ⟨_, by rw [genF_tgtPtr _ _ _ _ hp, hq]; rfl⟩
-  | srcPtr hz hp _ ih => intro asg; obtain ⟨q, hq⟩ := ih false; exact ⟨_, by rw [genF_srcPtr _ _ _ _ hp, hq, hz]; rfl⟩
-  | slice _ ih => intro asg; obtain ⟨q, hq⟩ := ih true; exact ⟨_, by rw [genF_slice, hq]; rfl⟩
-  | array _ ih => intro asg; obtain ⟨q, hq⟩ := ih true; exact ⟨_, by rw [genF_array, hq]; rfl⟩
-  | map _ _ ih1 ih2 =>
-    intro asg; obtain ⟨q1, hq1⟩ := ih1 false; obtain ⟨q2, hq2⟩ := ih2 false
-    exact ⟨_, by rw [genF_map, hq1]; simp only []; rw [hq2]; rfl⟩
+theorem Fields.eq_nil_of_length {fs : Fields} (h : (fs.length == 0) = true) : fs = .nil := by
+  cases fs <;> simp [Fields.length] at h ⊢
+
+theorem genF_ok_convertible_all (z : Bool) :
+    (∀ asg s t, ∀ p, genF z asg s t = .ok p → Convertible z s t) ∧
+    (∀ sfs tfs, ∀ ps, genFields z sfs tfs = .ok ps → ConvertibleFields z sfs tfs) := by
+  apply genF.mutual_induct z
+    (motive1 := fun asg s t => ∀ p, genF z asg s t = .ok p → Convertible z s t)
+    (motive2 := fun sfs tfs => ∀ ps, genFields z sfs tfs = .ok ps → ConvertibleFields z sfs tfs)
+  · intro asg a b ih p h; rw [genF_ptrPtr] at h; obtain ⟨q, hq, _⟩ := map_ok h; exact .ptrPtr (ih q hq)
+  · intro asg s b hn ih p h; rw [genF_tgtPtr _ _ _ _ (isPtrTy_false_of hn)] at h
+    obtain ⟨q, hq, _⟩ := map_ok h; exact .tgtPtr (isPtrTy_false_of hn) (ih q hq)
+  · intro asg a t hn hz ih p h; rw [genF_srcPtr _ _ _ _ (isPtrTy_false_of hn), if_pos hz] at h
+    obtain ⟨q, hq, _⟩ := map_ok h; exact .srcPtr hz (isPtrTy_false_of hn) (ih q hq)
+  · intro asg a t hn hz p h; rw [genF_srcPtr _ _ _ _ (isPtrTy_false_of hn), if_neg hz] at h; cases h
+  · intro asg k k' hk p _; exact .basic (by simpa using hk)
+  · intro asg k k' hk p h; rw [genF_basic, if_neg hk] at h; cases h
+  · intro asg a b ih p h; rw [genF_slice] at h; obtain ⟨q, hq, _⟩ := map_ok h; exact .slice (ih q hq)
+  · intro asg n a b ih p h; rw [genF_array] at h; obtain ⟨q, hq, _⟩ := map_ok h; exact .array (ih q hq)
+  · intro asg k v k' v' kk hk ih1 ih2 p h; rw [genF_map, hk] at h
+    obtain ⟨q, hq, _⟩ := map_ok h; exact .map (ih1 kk hk) (ih2 q hq)
+  · intro asg k v k' v' d hk _ p h; rw [genF_map, hk] at h; cases h
+  · intro asg sfs tfs hc p _
+    simp only [Bool.and_eq_true] at hc
+    rw [Fields.eq_nil_of_length hc.2]; exact .struct .nil
+  · intro asg sfs tfs hc ih p h; rw [genF_struct, if_neg hc] at h
+    obtain ⟨q, hq, _⟩ := map_ok h; exact .struct (ih q hq)
+  · intro asg s t h1 h2 _ h4 h5 h6 h7 h8 p h
+    rw [genF_reject z asg s t (isPtrTy_false_of h1) (isPtrTy_false_of h2) (topRule_false_of h4 h5 h6 h7 h8)] at h; cases h
+  · intro sfs ps _; exact .nil
+  · intro sfs f ty rest hf ps h; rw [genFields_cons, hf] at h; cases h
+  · intro sfs f ty rest sty hf d hg _ ps h; rw [genFields_cons, hf] at h; simp only [hg] at h; cases h
+  · intro sfs f ty rest sty hf cv hg d hr _ _ ps h; rw [genFields_cons, hf] at h; simp only [hg, hr] at h; cases h
+  · intro sfs f ty rest sty hf cv hg more hr ih1 ih2 ps _; exact .cons hf (ih1 cv hg) (ih2 more hr)
+
+theorem genF_ok_convertible (z asg : Bool) (s t : Ty) : ∀ p, genF z asg s t = .ok p → Convertible z s t :=
+  (genF_ok_convertible_all z).1 asg s t
+
+mutual
+  theorem convertible_genF_ok (z : Bool) : ∀ {s t : Ty}, Convertible z s t → ∀ asg, ∃ p, genF z asg s t = .ok p
+    | _, _, .basic hk, asg => ⟨.ident, by rw [genF_basic]; simp [hk]⟩
+    | _, _, .ptrPtr h, asg => by
+      obtain ⟨q, hq⟩ := convertible_genF_ok z h false; exact ⟨_, by rw [genF_ptrPtr, hq]; rfl⟩
+    | _, _, .tgtPtr hp h, asg => by
+      obtain ⟨q, hq⟩ := convertible_genF_ok z h false; exact ⟨_, by rw [genF_tgtPtr _ _ _ _ hp, hq]; rfl⟩
+    | _, _, .srcPtr hz hp h, asg => by
+      obtain ⟨q, hq⟩ := convertible_genF_ok z h false; exact ⟨_, by rw [genF_srcPtr _ _ _ _ hp, hq, hz]; rfl⟩
+    | _, _, .slice h, asg => by
+      obtain ⟨q, hq⟩ := convertible_genF_ok z h true; exact ⟨_, by rw [genF_slice, hq]; rfl⟩
+    | _, _, .array h, asg => by
+      obtain ⟨q, hq⟩ := convertible_genF_ok z h true; exact ⟨_, by rw [genF_array, hq]; rfl⟩
+    | _, _, .map h1 h2, asg => by
+      obtain ⟨q1, hq1⟩ := convertible_genF_ok z h1 false; obtain ⟨q2, hq2⟩ := convertible_genF_ok z h2 false
+      exact ⟨_, by rw [genF_map, hq1]; simp only []; rw [hq2]; rfl⟩
+    | _, _, .struct hf, asg => by
+      obtain ⟨ps, hps⟩ := convertibleFields_genFields_ok z hf
+      rw [genF_struct, hps]
+      split
+      · exact ⟨_, rfl⟩
+      · exact ⟨_, rfl⟩
+  theorem convertibleFields_genFields_ok (z : Bool) : ∀ {sfs tfs : Fields}, ConvertibleFields z sfs tfs →
+      ∃ ps, genFields z sfs tfs = .ok ps
+    | _, _, .nil => ⟨[], genFields_nil z _⟩
+    | _, _, .cons hf h hr => by
+      obtain ⟨cv, hcv⟩ := convertible_genF_ok z h true
+      obtain ⟨more, hmore⟩ := convertibleFields_genFields_ok z hr
+      exact ⟨_, by rw [genFields_cons, hf]; simp only [hcv, hmore]; rfl⟩
+end
 
 /-- **`genF` succeeds iff the documented rules cover the pair** (every type, either assignment flag) -/
 theorem genF_ok_iff (z asg : Bool) (s t : Ty) : (∃ p, genF z asg s t = .ok p) ↔ Convertible z s t :=
   ⟨fun ⟨p, h⟩ => genF_ok_convertible z asg s t p h, fun h => convertible_genF_ok z h asg⟩
 
-/-- a rejection is a type mismatch (with or without the pointer hint), never a lack of fuel or any other diagnostic -/
-theorem genF_error (z asg : Bool) (s t : Ty) : ∀ d, genF z asg s t = .error d → d = .typeMismatch ∨ d = .typeMismatchPtr := by
-  have map_err : ∀ {k : Conv → Conv} {r : Except Diag Conv} {d : Diag}, r.map k = .error d → r = .error d := by
-    intro k r d h; cases r with
-    | error e => cases h; rfl
-    | ok q => cases h
-  fun_induction genF z asg s t with
-  | case1 asg a b ih => intro d h; exact ih d (map_err h)
-  | case2 asg s b hn ih => intro d h; exact ih d (map_err h)
-  | case3 asg a t hn hz ih => intro d h; exact ih d (map_err h)
-  | case4 => intro d h; cases h; exact .inr rfl
-  | case5 => intro d h; cases h
-  | case6 => intro d h; cases h; exact .inl rfl
-  | case7 asg a b ih => intro d h; exact ih d (map_err h)
-  | case8 asg n a b ih => intro d h; exact ih d (map_err h)
-  | case9 asg k v k' v' kk hk ih2 ih1 => intro d h; exact ih1 d (map_err h)
-  | case10 asg k v k' v' d' hk ih => intro d h; cases h; exact ih _ hk
-  | case11 => intro d h; cases h; exact .inl rfl
+/-- a rejection is a type mismatch (with or without the pointer hint) or a target field without a source field, never a lack of
+fuel or any other diagnostic -/
+theorem genF_error_all (z : Bool) :
+    (∀ asg s t, ∀ d, genF z asg s t = .error d → d = .typeMismatch ∨ d = .typeMismatchPtr ∨ d = .noMatch) ∧
+    (∀ sfs tfs, ∀ d, genFields z sfs tfs = .error d → d = .typeMismatch ∨ d = .typeMismatchPtr ∨ d = .noMatch) := by
+  apply genF.mutual_induct z
+    (motive1 := fun asg s t => ∀ d, genF z asg s t = .error d → d = .typeMismatch ∨ d = .typeMismatchPtr ∨ d = .noMatch)
+    (motive2 := fun sfs tfs => ∀ d, genFields z sfs tfs = .error d → d = .typeMismatch ∨ d = .typeMismatchPtr ∨ d = .noMatch)
+  · intro asg a b ih d h; rw [genF_ptrPtr] at h; exact ih d (map_err h)
+  · intro asg s b hn ih d h; rw [genF_tgtPtr _ _ _ _ (isPtrTy_false_of hn)] at h; exact ih d (map_err h)
+  · intro asg a t hn hz ih d h; rw [genF_srcPtr _ _ _ _ (isPtrTy_false_of hn), if_pos hz] at h; exact ih d (map_err h)
+  · intro asg a t hn hz d h; rw [genF_srcPtr _ _ _ _ (isPtrTy_false_of hn), if_neg hz] at h; cases h; exact .inr (.inl rfl)
+  · intro asg k k' hk d h; rw [genF_basic, if_pos hk] at h; cases h
+  · intro asg k k' hk d h; rw [genF_basic, if_neg hk] at h; cases h; exact .inl rfl
+  · intro asg a b ih d h; rw [genF_slice] at h; exact ih d (map_err h)
+  · intro asg n a b ih d h; rw [genF_array] at h; exact ih d (map_err h)
+  · intro asg k v k' v' kk hk _ ih2 d h; rw [genF_map, hk] at h; exact ih2 d (map_err h)
+  · intro asg k v k' v' d' hk ih1 d h; rw [genF_map, hk] at h; cases h; exact ih1 _ hk
+  · intro asg sfs tfs hc d h; rw [genF_struct, if_pos hc] at h; cases h
+  · intro asg sfs tfs hc ih d h; rw [genF_struct, if_neg hc] at h; exact ih d (map_err h)
+  · intro asg s t h1 h2 _ h4 h5 h6 h7 h8 d h
+    rw [genF_reject z asg s t (isPtrTy_false_of h1) (isPtrTy_false_of h2) (topRule_false_of h4 h5 h6 h7 h8)] at h
+    cases h; exact .inl rfl
+  · intro sfs d h; rw [genFields_nil] at h; cases h
+  · intro sfs f ty rest hf d h; rw [genFields_cons, hf] at h; cases h; exact .inr (.inr rfl)
+  · intro sfs f ty rest sty hf d' hg ih d h; rw [genFields_cons, hf] at h; simp only [hg] at h; cases h; exact ih _ hg
+  · intro sfs f ty rest sty hf cv hg d' hr _ ih2 d h; rw [genFields_cons, hf] at h; simp only [hg, hr] at h; cases h
+    exact ih2 _ hr
+  · intro sfs f ty rest sty hf cv hg more hr _ _ d h; rw [genFields_cons, hf] at h; simp only [hg, hr] at h; cases h
 
-/-! ### the plans are in the checked structural fragment (L-B on F) -/
+theorem genF_error_struct (z asg : Bool) (s t : Ty) :
+    ∀ d, genF z asg s t = .error d → d = .typeMismatch ∨ d = .typeMismatchPtr ∨ d = .noMatch :=
+  (genF_error_all z).1 asg s t
 
-theorem beq_refl_F : ∀ t : Ty, inF t = true → (t == t) = true
-  | .basic k, _ => by show Ty.beq _ _ = true; simp [Ty.beq]
-  | .ptr e, h => by
-    show Ty.beq _ _ = true; simp only [Ty.beq]; exact beq_refl_F e (by simpa [inF] using h)
-  | .slice e, h => by
-    show Ty.beq _ _ = true; simp only [Ty.beq]; exact beq_refl_F e (by simpa [inF] using h)
-  | .array n e, h => by
-    show Ty.beq _ _ = true; simp only [Ty.beq]
-    have := beq_refl_F e (by simpa [inF] using h)
-    simp; exact this
-  | .map k v, h => by
-    simp [inF] at h
-    show Ty.beq _ _ = true; simp only [Ty.beq]
-    have h1 : Ty.beq k k = true := beq_refl_F k h.1
-    have h2 : Ty.beq v v = true := beq_refl_F v h.2
-    simp [h1, h2]
-  | .named _, h => by simp [inF] at h
-  | .struct _, h => by simp [inF] at h
-  | .opaque _ _, h => by simp [inF] at h
+/-- on the struct-free fragment a rejection is a type mismatch -/
+theorem genF_error (z : Bool) : ∀ asg s t, inF s = true → inF t = true →
+    ∀ d, genF z asg s t = .error d → d = .typeMismatch ∨ d = .typeMismatchPtr := by
+  refine (genF.mutual_induct z
+    (motive1 := fun asg s t => inF s = true → inF t = true → ∀ d, genF z asg s t = .error d → d = .typeMismatch ∨ d = .typeMismatchPtr)
+    (motive2 := fun _ _ => True) ?_ ?_ ?_ ?_ ?_ ?_ ?_ ?_ ?_ ?_ ?_ ?_ ?_ ?_ ?_ ?_ ?_ ?_).1
+  · intro asg a b ih hs ht d h; rw [genF_ptrPtr] at h
+    exact ih (by simpa [inF] using hs) (by simpa [inF] using ht) d (map_err h)
+  · intro asg s b hn ih hs ht d h; rw [genF_tgtPtr _ _ _ _ (isPtrTy_false_of hn)] at h
+    exact ih hs (by simpa [inF] using ht) d (map_err h)
+  · intro asg a t hn hz ih hs ht d h; rw [genF_srcPtr _ _ _ _ (isPtrTy_false_of hn), if_pos hz] at h
+    exact ih (by simpa [inF] using hs) ht d (map_err h)
+  · intro asg a t hn hz _ _ d h; rw [genF_srcPtr _ _ _ _ (isPtrTy_false_of hn), if_neg hz] at h; cases h; exact .inr rfl
+  · intro asg k k' hk _ _ d h; rw [genF_basic, if_pos hk] at h; cases h
+  · intro asg k k' hk _ _ d h; rw [genF_basic, if_neg hk] at h; cases h; exact .inl rfl
+  · intro asg a b ih hs ht d h; rw [genF_slice] at h
+    exact ih (by simpa [inF] using hs) (by simpa [inF] using ht) d (map_err h)
+  · intro asg n a b ih hs ht d h; rw [genF_array] at h
+    exact ih (by simpa [inF] using hs) (by simpa [inF] using ht) d (map_err h)
+  · intro asg k v k' v' kk hk _ ih2 hs ht d h; rw [genF_map, hk] at h
+    simp [inF] at hs ht; exact ih2 hs.2 ht.2 d (map_err h)
+  · intro asg k v k' v' d' hk ih1 hs ht d h; rw [genF_map, hk] at h; cases h
+    simp [inF] at hs ht; exact ih1 hs.1 ht.1 _ hk
+  · intro asg sfs tfs _ hs; simp [inF] at hs
+  · intro asg sfs tfs _ _ hs; simp [inF] at hs
+  · intro asg s t h1 h2 _ h4 h5 h6 h7 h8 _ _ d h
+    rw [genF_reject z asg s t (isPtrTy_false_of h1) (isPtrTy_false_of h2) (topRule_false_of h4 h5 h6 h7 h8)] at h
+    cases h; exact .inl rfl
+  all_goals (intros; trivial)
+
+/-! ### the plans are in the checked structural fragment (L-B on F and FS) -/
+
+mutual
+  theorem Ty.beq_refl' : ∀ t : Ty, Ty.beq t t = true
+    | .basic k => by simp [Ty.beq]
+    | .named _ => by simp [Ty.beq]
+    | .ptr e => by simp only [Ty.beq]; exact Ty.beq_refl' e
+    | .slice e => by simp only [Ty.beq]; exact Ty.beq_refl' e
+    | .array n e => by simp [Ty.beq]; exact Ty.beq_refl' e
+    | .map k v => by simp [Ty.beq]; exact ⟨Ty.beq_refl' k, Ty.beq_refl' v⟩
+    | .struct fs => by simp only [Ty.beq]; exact Fields.beq_refl' fs
+    | .opaque _ _ => by simp [Ty.beq]
+  theorem Fields.beq_refl' : ∀ fs : Fields, Fields.beq fs fs = true
+    | .nil => by simp [Fields.beq]
+    | .cons f t r => by simp [Fields.beq]; exact ⟨Ty.beq_refl' t, Fields.beq_refl' r⟩
+end
+
+theorem beq_refl_ty (t : Ty) : (t == t) = true := Ty.beq_refl' t
+
+theorem beq_refl_F (t : Ty) (_ : inF t = true) : (t == t) = true := beq_refl_ty t
 
 theorem arrayElemFree_false {asg : Bool} {s : Ty} (h : arrayElemFree asg s = true) : arrayElemFree false s = true := by
   cases s <;> simp_all [arrayElemFree]
 
-theorem genF_checked (p : Program) (z asg : Bool) (s t : Ty) :
-    ∀ plan, genF z asg s t = .ok plan → inF s = true → inF t = true → aliasFree s = true → aliasFree t = true →
-      arrayElemFree asg s = true → checkTy p plan s t = true := by
-  fun_induction genF z asg s t with
-  | case1 asg a b ih =>
-    intro plan h hs ht has hat har; obtain ⟨q, hq, rfl⟩ := map_ok h
-    simp [inF, aliasFree, arrayElemFree] at hs ht has hat har
-    simp [checkTy, under, beq_refl_F b ht, ih q hq hs ht has hat har]
-  | case2 asg s b hn ih =>
-    intro plan h hs ht has hat har; obtain ⟨q, hq, rfl⟩ := map_ok h
-    have htb : inF b = true := by simpa [inF] using ht
+theorem aliasFree_fieldTy : ∀ {fs : Fields} {n : Str.S} {t : Ty}, aliasFreeFields fs = true → fieldTy fs n = some t →
+    aliasFree t = true
+  | .nil, _, _, _, h => by simp [fieldTy] at h
+  | .cons f t' r, n, t, hf, h => by
+    simp [aliasFreeFields] at hf
+    simp only [fieldTy] at h
+    split at h
+    · cases h; exact hf.1
+    · exact aliasFree_fieldTy hf.2 h
+
+theorem arrayElemFree_fieldTy : ∀ {fs : Fields} {n : Str.S} {t : Ty}, arrayElemFreeFields fs = true → fieldTy fs n = some t →
+    arrayElemFree true t = true
+  | .nil, _, _, _, h => by simp [fieldTy] at h
+  | .cons f t' r, n, t, hf, h => by
+    simp [arrayElemFreeFields] at hf
+    simp only [fieldTy] at h
+    split at h
+    · cases h; exact hf.1
+    · exact arrayElemFree_fieldTy hf.2 h
+
+theorem find_fieldTy : ∀ {fs : Fields} {n : Str.S} {t : Ty}, fieldTy fs n = some t →
+    ∃ fi, fs.toList.find? (fun (x : FieldInfo × Ty) => x.1.name == n) = some (fi, t)
+  | .nil, _, _, h => by simp [fieldTy] at h
+  | .cons f t' r, n, t, h => by
+    simp only [fieldTy] at h
+    simp only [Fields.toList, List.find?]
+    split at h
+    · rename_i hn; cases h; exact ⟨f, by simp [hn]⟩
+    · rename_i hn
+      obtain ⟨fi, hfi⟩ := find_fieldTy h
+      exact ⟨fi, by simp [hn, hfi]⟩
+
+theorem genF_checked_all (p : Program) (z : Bool) :
+    (∀ asg s t, ∀ plan, genF z asg s t = .ok plan → inFS s = true → inFS t = true → aliasFree s = true → aliasFree t = true →
+      arrayElemFree asg s = true → structsOK t = true → checkTy p plan s t = true) ∧
+    (∀ sfs tfs, ∀ ps, genFields z sfs tfs = .ok ps → inFSFields sfs = true → inFSFields tfs = true →
+      aliasFreeFields sfs = true → aliasFreeFields tfs = true → arrayElemFreeFields sfs = true → structsOKFields tfs = true →
+      checkFields p (FieldPlans.ofList ps) sfs.toList tfs.toList = true) := by
+  apply genF.mutual_induct z
+    (motive1 := fun asg s t => ∀ plan, genF z asg s t = .ok plan → inFS s = true → inFS t = true → aliasFree s = true →
+      aliasFree t = true → arrayElemFree asg s = true → structsOK t = true → checkTy p plan s t = true)
+    (motive2 := fun sfs tfs => ∀ ps, genFields z sfs tfs = .ok ps → inFSFields sfs = true → inFSFields tfs = true →
+      aliasFreeFields sfs = true → aliasFreeFields tfs = true → arrayElemFreeFields sfs = true → structsOKFields tfs = true →
+      checkFields p (FieldPlans.ofList ps) sfs.toList tfs.toList = true)
+  · intro asg a b ih plan h hs ht has hat har hok; rw [genF_ptrPtr] at h; obtain ⟨q, hq, rfl⟩ := map_ok h
+    simp [inFS, aliasFree, arrayElemFree, structsOK] at hs ht has hat har hok
+    simp [checkTy, under, beq_refl_ty b, ih q hq hs ht has hat har hok]
+  · intro asg s b hn ih plan h hs ht has hat har hok
+    rw [genF_tgtPtr _ _ _ _ (isPtrTy_false_of hn)] at h; obtain ⟨q, hq, rfl⟩ := map_ok h
+    have htb : inFS b = true := by simpa [inFS] using ht
     have hatb : aliasFree b = true := by simpa [aliasFree] using hat
-    have := ih q hq hs htb has hatb (arrayElemFree_false har)
-    cases s <;> simp [inF] at hs
-    · simp [checkTy, under, beq_refl_F b htb, this]
+    have hokb : structsOK b = true := by simpa [structsOK] using hok
+    have := ih q hq hs htb has hatb (arrayElemFree_false har) hokb
+    cases s <;> simp [inFS] at hs
+    · simp [checkTy, under, beq_refl_ty b, this]
     · exact absurd rfl (hn _)
-    · simp [checkTy, under, beq_refl_F b htb, this]
-    · simp [checkTy, under, beq_refl_F b htb, this]
-    · simp [checkTy, under, beq_refl_F b htb, this]
-  | case3 asg a t hn hz ih =>
-    intro plan h hs ht has hat har; obtain ⟨q, hq, rfl⟩ := map_ok h
-    have hsa : inF a = true := by simpa [inF] using hs
+    · simp [checkTy, under, beq_refl_ty b, this]
+    · simp [checkTy, under, beq_refl_ty b, this]
+    · simp [checkTy, under, beq_refl_ty b, this]
+    · simp [checkTy, under, beq_refl_ty b, this]
+  · intro asg a t hn hz ih plan h hs ht has hat har hok
+    rw [genF_srcPtr _ _ _ _ (isPtrTy_false_of hn), if_pos hz] at h; obtain ⟨q, hq, rfl⟩ := map_ok h
+    have hsa : inFS a = true := by simpa [inFS] using hs
     have hasa : aliasFree a = true := by simpa [aliasFree] using has
-    have := ih q hq hsa ht hasa hat (by simpa [arrayElemFree] using har)
-    have hb := beq_refl_F t ht
-    cases t <;> simp [inF] at ht
+    have := ih q hq hsa ht hasa hat (by simpa [arrayElemFree] using har) hok
+    have hb := beq_refl_ty t
+    cases t <;> simp [inFS] at ht
     · simp [checkTy, under, hb, this]
     · exact absurd rfl (hn _)
     · simp [checkTy, under, hb, this]
     · simp [checkTy, under, hb, this]
     · simp [checkTy, under, hb, this]
-  | case4 => intro plan h; cases h
-  | case5 asg k k' hk =>
-    intro plan h hs ht has hat har; cases h
+    · simp [checkTy, under, hb, this]
+  · intro asg a t hn hz plan h; rw [genF_srcPtr _ _ _ _ (isPtrTy_false_of hn), if_neg hz] at h; cases h
+  · intro asg k k' hk plan h hs ht has hat har hok
+    rw [genF_basic, if_pos hk] at h; cases h
     simp [aliasFree] at has hat
     simp at hk
     simp [checkTy, under]
     rw [← has, ← hat, hk]
-  | case6 => intro plan h; cases h
-  | case7 asg a b ih =>
-    intro plan h hs ht has hat har; obtain ⟨q, hq, rfl⟩ := map_ok h
-    simp [inF, aliasFree, arrayElemFree] at hs ht has hat har
-    simp [checkTy, under, beq_refl_F b ht, ih q hq hs ht has hat har]
-  | case8 asg n a b ih =>
-    intro plan h hs ht has hat har; obtain ⟨q, hq, rfl⟩ := map_ok h
-    simp [inF, aliasFree, arrayElemFree] at hs ht has hat har
-    simp [checkTy, under, beq_refl_F b ht, ih q hq hs ht has hat har.2, har.1]
-  | case9 asg k v k' v' kk hk ih2 ih1 =>
-    intro plan h hs ht has hat har; obtain ⟨q, hq, rfl⟩ := map_ok h
-    simp [inF, aliasFree, arrayElemFree] at hs ht has hat har
-    simp [checkTy, under, beq_refl_F k' ht.1, beq_refl_F v' ht.2, ih2 kk hk hs.1 ht.1 has.1 hat.1 har.1,
-      ih1 q hq hs.2 ht.2 has.2 hat.2 har.2]
-  | case10 => intro plan h; cases h
-  | case11 => intro plan h; cases h
+  · intro asg k k' hk plan h; rw [genF_basic, if_neg hk] at h; cases h
+  · intro asg a b ih plan h hs ht has hat har hok; rw [genF_slice] at h; obtain ⟨q, hq, rfl⟩ := map_ok h
+    simp [inFS, aliasFree, arrayElemFree, structsOK] at hs ht has hat har hok
+    simp [checkTy, under, beq_refl_ty b, ih q hq hs ht has hat har hok]
+  · intro asg n a b ih plan h hs ht has hat har hok; rw [genF_array] at h; obtain ⟨q, hq, rfl⟩ := map_ok h
+    simp [inFS, aliasFree, arrayElemFree, structsOK] at hs ht has hat har hok
+    simp [checkTy, under, beq_refl_ty b, ih q hq hs ht has hat har.2 hok, har.1]
+  · intro asg k v k' v' kk hk ih2 ih1 plan h hs ht has hat har hok; rw [genF_map, hk] at h
+    obtain ⟨q, hq, rfl⟩ := map_ok h
+    simp [inFS, aliasFree, arrayElemFree, structsOK] at hs ht has hat har hok
+    simp [checkTy, under, beq_refl_ty k', beq_refl_ty v', ih2 kk hk hs.1 ht.1 has.1 hat.1 har.1 hok.1,
+      ih1 q hq hs.2 ht.2 has.2 hat.2 har.2 hok.2]
+  · intro asg k v k' v' d hk _ plan h; rw [genF_map, hk] at h; cases h
+  · intro asg sfs tfs hc plan h hs ht has hat har hok
+    simp only [Bool.and_eq_true] at hc
+    have := Fields.eq_nil_of_length hc.2
+    subst this
+    simp [structsOK, Fields.length] at hok
+  · intro asg sfs tfs hc ih plan h hs ht has hat har hok
+    rw [genF_struct, if_neg hc] at h; obtain ⟨q, hq, rfl⟩ := map_ok h
+    simp only [inFS, aliasFree, arrayElemFree, structsOK, Bool.and_eq_true] at hs ht has hat har hok
+    have := ih q hq hs ht has hat har hok.2
+    simp only [checkTy, under, fieldNames, Bool.and_eq_true]
+    exact ⟨hok.1.2, this⟩
+  · intro asg s t h1 h2 _ h4 h5 h6 h7 h8 plan h
+    rw [genF_reject z asg s t (isPtrTy_false_of h1) (isPtrTy_false_of h2) (topRule_false_of h4 h5 h6 h7 h8)] at h; cases h
+  · intro sfs ps h _ _ _ _ _ _; rw [genFields_nil] at h; cases h; simp [FieldPlans.ofList, Fields.toList, checkFields]
+  · intro sfs f ty rest hf ps h; rw [genFields_cons, hf] at h; cases h
+  · intro sfs f ty rest sty hf d hg _ ps h; rw [genFields_cons, hf] at h; simp only [hg] at h; cases h
+  · intro sfs f ty rest sty hf cv hg d hr _ _ ps h; rw [genFields_cons, hf] at h; simp only [hg, hr] at h; cases h
+  · intro sfs f ty rest sty hf cv hg more hr ih1 ih2 ps h hs ht has hat har hok
+    rw [genFields_cons, hf] at h; simp only [hg, hr] at h; cases h
+    simp only [inFSFields, aliasFreeFields, structsOKFields, Bool.and_eq_true] at ht hat hok
+    have h1 := ih1 cv hg (inFS_fieldTy hs hf) ht.1.2 (aliasFree_fieldTy has hf) hat.1 (arrayElemFree_fieldTy har hf) hok.1
+    have h2 := ih2 more hr hs ht.2 has hat.2 har hok.2
+    obtain ⟨fi, hfi⟩ := find_fieldTy hf
+    simp [FieldPlans.ofList, Fields.toList, checkFields, checkField, hfi, h1, h2]
+
+/-- **L-B on FS**: the reference plan passes the plan checker of C02 -/
+theorem genF_checked_struct (p : Program) (z asg : Bool) (s t : Ty) :
+    ∀ plan, genF z asg s t = .ok plan → inFS s = true → inFS t = true → aliasFree s = true → aliasFree t = true →
+      arrayElemFree asg s = true → structsOK t = true → checkTy p plan s t = true :=
+  (genF_checked_all p z).1 asg s t
+
+theorem structsOK_of_inF : ∀ t : Ty, inF t = true → structsOK t = true
+  | .basic _, _ => by simp [structsOK]
+  | .ptr e, h => by simp only [structsOK]; exact structsOK_of_inF e (by simpa [inF] using h)
+  | .slice e, h => by simp only [structsOK]; exact structsOK_of_inF e (by simpa [inF] using h)
+  | .array _ e, h => by simp only [structsOK]; exact structsOK_of_inF e (by simpa [inF] using h)
+  | .map k v, h => by
+    simp [inF] at h
+    simp [structsOK, structsOK_of_inF k h.1, structsOK_of_inF v h.2]
+  | .named _, h => by simp [inF] at h
+  | .struct _, h => by simp [inF] at h
+  | .opaque _ _, h => by simp [inF] at h
+
+theorem genF_checked (p : Program) (z asg : Bool) (s t : Ty) :
+    ∀ plan, genF z asg s t = .ok plan → inF s = true → inF t = true → aliasFree s = true → aliasFree t = true →
+      arrayElemFree asg s = true → checkTy p plan s t = true :=
+  fun plan h hs ht h1 h2 h3 =>
+    genF_checked_struct p z asg s t plan h (inFS_of_inF s hs) (inFS_of_inF t ht) h1 h2 h3 (structsOK_of_inF t ht)
 
 /-! ### the plain situation from a decidable condition on the method table -/
+
+/-- no declared or generated (non-update) method has a signature inside the fragment of size ≤ N -/
+def plainUpTo (ws : Bool) (N : Nat) (ms : List GenMethod) : Bool :=
+  ms.all (fun m => m.updateTarget || !(frag ws m.source && frag ws m.target && decide (tySize m.source + tySize m.target ≤ N)))
 
 /-- no declared or generated (non-update) method has a signature inside F of size ≤ N -/
 def plainMethodsUpTo (N : Nat) (ms : List GenMethod) : Bool :=
@@ -480,6 +973,21 @@ def plainMethodsUpTo (N : Nat) (ms : List GenMethod) : Bool :=
 def plainMethods (ms : List GenMethod) : Bool :=
   ms.all (fun m => m.updateTarget || !(inF m.source && inF m.target))
 
+/-- no declared or generated (non-update) method has a signature inside FS of size ≤ N -/
+def plainMethodsSUpTo (N : Nat) (ms : List GenMethod) : Bool :=
+  ms.all (fun m => m.updateTarget || !(inFS m.source && inFS m.target && decide (tySize m.source + tySize m.target ≤ N)))
+
+/-- no declared or generated (non-update) method has a signature inside FS -/
+def plainMethodsS (ms : List GenMethod) : Bool :=
+  ms.all (fun m => m.updateTarget || !(inFS m.source && inFS m.target))
+
+/-- no method carries field settings (`map`, `ignore`, `autoMap` lines): the overlapping-definitions check of the Struct rule
+has nothing to report -/
+def noFieldSettings (ms : List GenMethod) : Bool := ms.all (fun m => m.cfg.rawFieldSettings.isEmpty)
+
+theorem plainMethodsUpTo_eq (N : Nat) (ms : List GenMethod) : plainMethodsUpTo N ms = plainUpTo false N ms := rfl
+theorem plainMethodsSUpTo_eq (N : Nat) (ms : List GenMethod) : plainMethodsSUpTo N ms = plainUpTo true N ms := rfl
+
 theorem plainMethods_upTo (N : Nat) (ms : List GenMethod) (h : plainMethods ms = true) : plainMethodsUpTo N ms = true := by
   simp only [plainMethods, plainMethodsUpTo, List.all_eq_true] at h ⊢
   intro m hm
@@ -487,8 +995,20 @@ theorem plainMethods_upTo (N : Nat) (ms : List GenMethod) (h : plainMethods ms =
   cases hu : m.updateTarget <;> simp [hu] at this ⊢
   exact .inl this
 
-theorem lookup_none_of_plain (N : Nat) (ms : List GenMethod) (h : plainMethodsUpTo N ms = true) (s t : Ty)
-    (hs : inF s = true) (ht : inF t = true) (hN : tySize s + tySize t ≤ N)
+theorem plainMethodsS_upTo (N : Nat) (ms : List GenMethod) (h : plainMethodsS ms = true) : plainMethodsSUpTo N ms = true := by
+  simp only [plainMethodsS, plainMethodsSUpTo, List.all_eq_true] at h ⊢
+  intro m hm
+  have := h m hm
+  cases hu : m.updateTarget <;> simp [hu] at this ⊢
+  exact .inl this
+
+theorem noFieldSettings_raw (ms : List GenMethod) (h : noFieldSettings ms = true) : ∀ m ∈ ms, m.cfg.rawFieldSettings = [] := by
+  intro m hm
+  have := (List.all_eq_true.mp h) m hm
+  simpa using this
+
+theorem lookup_none_of_plain (ws : Bool) (N : Nat) (ms : List GenMethod) (h : plainUpTo ws N ms = true) (s t : Ty)
+    (hs : frag ws s = true) (ht : frag ws t = true) (hN : tySize s + tySize t ≤ N)
     (av : List Ty) : indexGet (lookupIndex ms) s t av = .none := by
   have hf : (lookupIndex ms).filter (fun (x : Nat × Ty × Ty × List Ty) => x.2.1 == s && x.2.2.1 == t) = [] := by
     rw [List.filter_eq_nil_iff]
@@ -517,12 +1037,13 @@ theorem lookup_none_of_plain (N : Nat) (ms : List GenMethod) (h : plainMethodsUp
 
 /-! ### the statements used by `Gv.Props.C03` -/
 
-theorem plain_of (c : Converter) (cx : Ctx) (st : GState) (z : Bool) (N : Nat)
-    (hext : c.extend = []) (hms : plainMethodsUpTo N st.methods = true)
+theorem plain_of (c : Converter) (cx : Ctx) (st : GState) (z : Bool) (ws : Bool) (N : Nat)
+    (hext : c.extend = []) (hms : plainUpTo ws N st.methods = true)
     (hu : cx.cfg.common.useUnderlying = false) (hsk : cx.cfg.common.skipCopySameType = false)
-    (hz : cx.cfg.common.useZeroValue = z) (hc : st.useCtor = false) : Plain c cx st z N :=
-  { extend := hext, lookup := fun s t hs ht hN => lookup_none_of_plain N st.methods hms s t hs ht hN cx.available,
-    underlying := hu, skipCopy := hsk, zero := hz, ctor := hc }
+    (hz : cx.cfg.common.useZeroValue = z) (hc : st.useCtor = false) (hsp : ws = true → StructPlain cx st) :
+    Plain c cx st z ws N :=
+  { extend := hext, lookup := fun s t hs ht hN => lookup_none_of_plain ws N st.methods hms s t hs ht hN cx.available,
+    underlying := hu, skipCopy := hsk, zero := hz, ctor := hc, structs := hsp }
 
 /-- `conv` (generator.Build / Assign) on a pair of F-types is the reference generator, and leaves the state alone -/
 theorem conv_fragment (c : Converter) (cx : Ctx) (st : GState) (z : Bool) (s t : Ty) (path : List PathElem) (fuel : Nat)
@@ -531,7 +1052,8 @@ theorem conv_fragment (c : Converter) (cx : Ctx) (st : GState) (z : Bool) (s t :
     (hu : cx.cfg.common.useUnderlying = false) (hsk : cx.cfg.common.skipCopySameType = false)
     (hz : cx.cfg.common.useZeroValue = z) (hc : st.useCtor = false) :
     conv c fuel cx mode pp s t path st = ret (genF z (asgOf mode) s t) st :=
-  conv_F c cx st z _ (plain_of c cx st z _ hext hms hu hsk hz hc) _ (Nat.le_refl _) s t (Nat.le_refl _) hs ht fuel hfuel mode pp path
+  conv_F c cx st z false _ (plain_of c cx st z false _ hext hms hu hsk hz hc (fun h => by cases h)) _ (Nat.le_refl _) s t
+    (Nat.le_refl _) hs ht fuel hfuel mode pp path (fun h => by cases h)
 
 /-- `noLookup` (buildNoLookup, the entry of a method body) on a pair of F-types: only methods with a strictly SMALLER
 F-signature are excluded (the method being built has the signature of the pair itself) -/
@@ -542,9 +1064,45 @@ theorem noLookup_fragment (c : Converter) (cx : Ctx) (st : GState) (z : Bool) (s
     (hz : cx.cfg.common.useZeroValue = z) (hc : st.useCtor = false) :
     noLookup c fuel cx mode pp s t path st = ret (genF z (asgNL mode) s t) st := by
   obtain ⟨f, rfl⟩ : ∃ f, fuel = f + 1 := ⟨fuel - 1, by have := tySize_pos s; omega⟩
-  have hp := plain_of c cx st z _ hext hms hu hsk hz hc
-  exact noLookup_F c cx st z hu hsk hz hc f s t hs ht
-    (fun a b hlt ha hb => conv_F c cx st z _ hp _ (Nat.le_refl _) a b (by omega) ha hb f (by omega)) mode pp path
+  have hp := plain_of c cx st z false _ hext hms hu hsk hz hc (fun h => by cases h)
+  exact noLookup_F c cx st z false hu hsk hz hc (fun h => by cases h) f s t hs ht (by omega)
+    (fun a b hlt ha hb fuel' hfu mode' pp' path' hm' =>
+      conv_F c cx st z false _ hp _ (Nat.le_refl _) a b (by omega) ha hb fuel' hfu mode' pp' path' hm') mode pp path
+    (fun h => by cases h)
+
+/-- the settings of the bare Struct rule, as decidable conditions -/
+theorem structPlain_of (cx : Ctx) (st : GState)
+    (h1 : cx.cfg.common.matchIgnoreCase = false) (h2 : cx.cfg.common.ignoreMissing = false)
+    (h3 : cx.cfg.fields = []) (h4 : cx.cfg.autoMap = []) (h5 : cx.updateTarget = false)
+    (h6 : noFieldSettings st.methods = true) : StructPlain cx st :=
+  { noIgnoreCase := h1, noIgnoreMissing := h2, fields := h3, autoMap := h4, noUpdate := h5,
+    noRaw := noFieldSettings_raw st.methods h6 }
+
+/-- `conv` on a pair of FS-types (with unnamed structs) is the reference generator, and leaves the state alone -/
+theorem conv_struct_fragment (c : Converter) (cx : Ctx) (st : GState) (z : Bool) (s t : Ty) (path : List PathElem) (fuel : Nat)
+    (mode : Mode) (pp : Bool) (hs : inFS s = true) (ht : inFS t = true) (hfuel : 2 * (tySize s + tySize t) ≤ fuel)
+    (hmode : mode.isUpdate = false)
+    (hext : c.extend = []) (hms : plainMethodsSUpTo (tySize s + tySize t) st.methods = true)
+    (hu : cx.cfg.common.useUnderlying = false) (hsk : cx.cfg.common.skipCopySameType = false)
+    (hz : cx.cfg.common.useZeroValue = z) (hc : st.useCtor = false) (sp : StructPlain cx st) :
+    conv c fuel cx mode pp s t path st = ret (genF z (asgOf mode) s t) st :=
+  conv_F c cx st z true _ (plain_of c cx st z true _ hext hms hu hsk hz hc (fun _ => sp)) _ (Nat.le_refl _) s t
+    (Nat.le_refl _) hs ht fuel hfuel mode pp path (fun _ => hmode)
+
+/-- `noLookup` on a pair of FS-types, the entry of a method body -/
+theorem noLookup_struct_fragment (c : Converter) (cx : Ctx) (st : GState) (z : Bool) (s t : Ty) (path : List PathElem) (fuel : Nat)
+    (mode : Mode) (pp : Bool) (hs : inFS s = true) (ht : inFS t = true) (hfuel : 2 * (tySize s + tySize t) ≤ fuel)
+    (hmode : mode.isUpdate = false)
+    (hext : c.extend = []) (hms : plainMethodsSUpTo (tySize s + tySize t - 1) st.methods = true)
+    (hu : cx.cfg.common.useUnderlying = false) (hsk : cx.cfg.common.skipCopySameType = false)
+    (hz : cx.cfg.common.useZeroValue = z) (hc : st.useCtor = false) (sp : StructPlain cx st) :
+    noLookup c fuel cx mode pp s t path st = ret (genF z (asgNL mode) s t) st := by
+  obtain ⟨f, rfl⟩ : ∃ f, fuel = f + 1 := ⟨fuel - 1, by have := tySize_pos s; omega⟩
+  have hp := plain_of c cx st z true _ hext hms hu hsk hz hc (fun _ => sp)
+  exact noLookup_F c cx st z true hu hsk hz hc (fun _ => sp) f s t hs ht (by omega)
+    (fun a b hlt ha hb fuel' hfu mode' pp' path' hm' =>
+      conv_F c cx st z true _ hp _ (Nat.le_refl _) a b (by omega) ha hb fuel' hfu mode' pp' path' hm') mode pp path
+    (fun _ => hmode)
 
 /-! ### one level up: a whole method, and a whole converter with one declared method -/
 
@@ -611,6 +1169,73 @@ theorem generate_single (c : Converter) (d : Declared) (z : Bool) (fuel rounds :
   have hb := buildMethod_fragment c 0 d.contexts
     { methods := [{ declaredMethod d with dirty := false }], fileNames := [Facts.thisVar.toList], seen := [], useCtor := false }
     { declaredMethod d with dirty := false } z fuel rfl hup hctor hs ht hfuel hext hms hu hsk hz
+  simp only [declaredMethod] at hb
+  rw [hb]
+  cases genF z false d.source d.target with
+  | error e => rfl
+  | ok plan =>
+    simp only []
+    unfold buildDirty
+    simp [StateT.pure, pure, bind, StateT.bind, Except.bind, Except.pure, get, getThe, MonadStateOf.get, StateT.get, List.modify]
+
+/-! the same with unnamed structs (FS) -/
+
+theorem buildMethod_struct_fragment (c : Converter) (idx : Nat) (av : List Ty) (st : GState) (m : GenMethod) (z : Bool) (fuel : Nat)
+    (hm : st.methods[idx]? = some m) (hup : m.updateTarget = false) (hctor : m.cfg.constructor = none)
+    (hs : inFS m.source = true) (ht : inFS m.target = true)
+    (hfuel : 2 * (tySize m.source + tySize m.target) < fuel)
+    (hext : c.extend = []) (hms : plainMethodsSUpTo (tySize m.source + tySize m.target - 1) st.methods = true)
+    (hu : m.cfg.common.useUnderlying = false) (hsk : m.cfg.common.skipCopySameType = false)
+    (hz : m.cfg.common.useZeroValue = z)
+    (h1 : m.cfg.common.matchIgnoreCase = false) (h2 : m.cfg.common.ignoreMissing = false)
+    (h3 : m.cfg.fields = []) (h4 : m.cfg.autoMap = []) (h6 : noFieldSettings st.methods = true) :
+    buildMethod c fuel idx av st =
+      match genF z false m.source m.target with
+      | .ok plan => .ok ((), { st with methods := st.methods.modify idx (fun m => { m with body := some (.convert plan) }) })
+      | .error d => .error d := by
+  obtain ⟨f, rfl⟩ : ∃ f, fuel = f + 1 := ⟨fuel - 1, by omega⟩
+  unfold buildMethod
+  simp only [bind, StateT.bind, Except.bind, getMethod_some idx st m hm]
+  simp [hup, extendIndex_nil c hext, indexGet_nil, get, getThe, MonadStateOf.get, StateT.get, set, StateT.set, pure, StateT.pure, Except.pure,
+    bind, StateT.bind, Except.bind, hctor]
+  rw [noLookup_struct_fragment c _ { st with seen := [], useCtor := false } z m.source m.target [] f .build false hs ht (by omega)
+    rfl hext hms hu hsk hz rfl (structPlain_of _ _ h1 h2 h3 h4 rfl h6)]
+  have ha : asgNL Mode.build = false := rfl
+  rw [ha]
+  cases genF z false m.source m.target with
+  | error d => rfl
+  | ok plan =>
+    simp [ret, modifyMethod, modify, modifyGet, MonadStateOf.modifyGet, StateT.modifyGet, pure, Except.pure]
+
+theorem generate_single_struct (c : Converter) (d : Declared) (z : Bool) (fuel rounds : Nat)
+    (hup : d.updateTarget = false) (hraw : d.cfg.rawFieldSettings = []) (hctor : d.cfg.constructor = none)
+    (hs : inFS d.source = true) (ht : inFS d.target = true)
+    (hfuel : 2 * (tySize d.source + tySize d.target) < fuel) (hrounds : 2 ≤ rounds)
+    (hext : c.extend = [])
+    (hu : d.cfg.common.useUnderlying = false) (hsk : d.cfg.common.skipCopySameType = false)
+    (hz : d.cfg.common.useZeroValue = z)
+    (h1 : d.cfg.common.matchIgnoreCase = false) (h2 : d.cfg.common.ignoreMissing = false)
+    (h3 : d.cfg.fields = []) (h4 : d.cfg.autoMap = []) :
+    generate c [d] fuel rounds =
+      match genF z false d.source d.target with
+      | .ok plan => .ok [{ declaredMethod d with dirty := false, body := some (.convert plan) }]
+      | .error e => .error e := by
+  obtain ⟨r, rfl⟩ : ∃ r, rounds = r + 2 := ⟨rounds - 2, by omega⟩
+  unfold generate
+  rw [setup_single c d hup hraw]
+  simp only [bind, Except.bind]
+  unfold buildDirty
+  simp [StateT.run, bind, StateT.bind, Except.bind, pure, StateT.pure, Except.pure, get, getThe, MonadStateOf.get, StateT.get,
+    declaredMethod, List.zipIdx, List.mergeSort_singleton, getMethod, modifyMethod, modify, modifyGet, MonadStateOf.modifyGet, StateT.modifyGet]
+  have hms : plainMethodsSUpTo (tySize d.source + tySize d.target - 1) [{ declaredMethod d with dirty := false }] = true := by
+    have := tySize_pos d.source
+    simp [plainMethodsSUpTo, declaredMethod, hup, hs, ht]
+    omega
+  have hnf : noFieldSettings [{ declaredMethod d with dirty := false }] = true := by
+    simp [noFieldSettings, declaredMethod, hraw]
+  have hb := buildMethod_struct_fragment c 0 d.contexts
+    { methods := [{ declaredMethod d with dirty := false }], fileNames := [Facts.thisVar.toList], seen := [], useCtor := false }
+    { declaredMethod d with dirty := false } z fuel rfl hup hctor hs ht hfuel hext hms hu hsk hz h1 h2 h3 h4 hnf
   simp only [declaredMethod] at hb
   rw [hb]
   cases genF z false d.source d.target with
